@@ -22,6 +22,9 @@ pub fn check(tier: Tier) -> Check {
         Part::new("C02/publish", json!({"full": t}), 0, tier.pick(40, 600)),
         Part::new("C02/disconnect", json!({}), 0, 60),
         Part::new("C02/values", json!({}), 0, 120),
+        // the client announces a Maximum Packet Size of its own: packets of exactly that size (and one
+        // byte less) are well within what the server may send
+        Part::new("C02/own-limit", json!({}), 0, 60),
         Part::new("C02/lengths", json!({"full": t}), 0, tier.pick(60, 600)),
     ];
     Check {
@@ -435,6 +438,52 @@ pub fn scenario(name: &str, params: &Value) -> Scenario {
             }));
             sys.finish();
             sys.report(ex, &["server-disconnect"]);
+        }),
+        "C02/own-limit" => Box::new(move |chz, ex| {
+            let n = [64usize, 200, 1024, 3000][chz.choose(4)];
+            let exact = chz.choose(2) == 1;
+            let mut sys = Sys::new("C02", &name, chz);
+            sys.params = params.clone();
+            let spec = ConnectSpec { maximum_packet_size: Some(n as u32), ..Default::default() };
+            // a CONNACK of exactly n bytes (n = 64): 2 + 2 + 1 + reason string (3 + k)
+            let connack_props = if n == 64 && exact { vec![Prop::str(31, &"c".repeat(64 - 8))] } else { vec![] };
+            sys.connect_with(spec, SPacket::Connack { session_present: false, reason: 0, props: connack_props });
+            if !sys.dead {
+                sys.start_run();
+            }
+            sys.apply(Ev::Start(OpSpec::Subscribe(SubscribeSpec::simple("s"))));
+            if sys.dead {
+                return sys.report(ex, &[]);
+            }
+            let ack = sys.ack_for(0, 0, "").unwrap();
+            sys.apply(Ev::Deliver(ack));
+            sys.apply(Ev::TakeStream(0));
+            let sid = sys.m.subs[0].sub_id.unwrap();
+            let target = if exact { n } else { n - 1 };
+            let mut plen = target.saturating_sub(12);
+            let mut pkt;
+            let mut tries = 0;
+            loop {
+                pkt = SPacket::Publish {
+                    dup: false,
+                    qos: 1,
+                    retain: false,
+                    topic: "in/t".into(),
+                    pid: Some(5),
+                    props: vec![Prop::var(11, sid)],
+                    payload: vec![0x42; plen],
+                };
+                let l = pkt.encode().len();
+                tries += 1;
+                if l == target || tries > 6 {
+                    break;
+                }
+                if l > target { plen -= l - target } else { plen += target - l }
+            }
+            sys.events.push(format!("own Maximum Packet Size {}, inbound PUBLISH of {} bytes", n, pkt.encode().len()));
+            sys.apply(Ev::Deliver(pkt));
+            sys.finish();
+            sys.report(ex, &["publish-values"]);
         }),
         "C02/values" => Box::new(move |chz, ex| {
             // boundary string / binary lengths in the packets read while running
